@@ -78,24 +78,39 @@ def read_manager_prefix(body: bytes, i: int):
     return dict(tag=tag, source=source.hex(), fee=fee, counter=counter, gas_limit=gas, storage_limit=storage), i
 
 
+_PK_LEN = {0: 32, 1: 33, 2: 33, 3: 48}      # public key: tag (ed25519 / secp256k1 / p256 / bls12-381) + bytes
+
+
 def decode_transactions(payload: bytes):
-    """Counters (and sources) of the contents of a signed operation group made only of parameter-less
-    transactions between implicit accounts, read off the binary form (Tezos P2P encoding):
-        branch(32) { 0x6c source(21) fee counter gas_limit storage_limit amount destination(22) 0x00 }* signature(64)
+    """Counters (and sources) of the contents of a signed operation group made of parameter-less transactions between implicit
+    accounts and reveals, read off the binary form (Tezos P2P encoding):
+        branch(32) { 0x6c source(21) fee counter gas_limit storage_limit amount destination(22) 0x00
+                   | 0x6b source(21) fee counter gas_limit storage_limit public_key(1+32|33|48) proof?(0x00 | 0xff len(4) bytes) }* signature(64)
     """
     body = payload[32:-64]
     i = 0
     out = []
     while i < len(body):
         head, i = read_manager_prefix(body, i)
+        if head['tag'] == 107:
+            i += 1 + _PK_LEN[body[i]]
+            if body[i] == 0xFF:
+                i += 1
+                i += 4 + int.from_bytes(body[i:i + 4], 'big')
+            elif body[i] == 0:
+                i += 1
+            else:
+                raise ValueError('reveal: bad proof flag')
+            out.append(dict(head, kind='reveal', amount=0))
+            continue
         if head['tag'] != 108:
-            raise ValueError(f'content tag {head["tag"]}: only transactions are modelled')
+            raise ValueError(f'content tag {head["tag"]}: only transactions and reveals are modelled')
         amount, i = _read_nat(body, i)
         i += 22
         if body[i] != 0:
             raise ValueError('parameters are not modelled')
         i += 1
-        out.append(dict(head, amount=amount))
+        out.append(dict(head, kind='transaction', amount=amount))
     return out
 
 
@@ -201,17 +216,19 @@ class SimState:
                 'status': 'applied', 'balance_updates': [], 'consumed_milligas': '168956'}}})
         return dict(contents=out)
 
-    def inject(self, payload: bytes, outcome_ok: bool):
+    def inject(self, payload: bytes, outcome_ok: bool, is_async: bool = False):
+        """is_async: the `async` flag of the injection RPC (send_async / inject(prevalidate=False)): the node answers without
+        pre-validating; the counters an operation must carry are the same, and the scenario still decides whether the RPC succeeds"""
         ops = decode_transactions(payload)
         counters = [o['counter'] for o in ops]
         expected = self.expected_counters(len(ops))
         rec = dict(counters=counters, expected=expected, ok=outcome_ok, node_counter=self.counter,
-                   pending=self.pending_count(), level=self.level)
+                   pending=self.pending_count(), level=self.level, is_async=bool(is_async))
         self.injections.append(rec)
         g = dict(hash=op_hash(payload), branch=block_hash(self.level), signature='sig',
-                 contents=[dict(kind='transaction', source=self.pkh, fee=str(o['fee']), counter=str(o['counter']),
+                 contents=[dict(kind=o['kind'], source=self.pkh, fee=str(o['fee']), counter=str(o['counter']),
                                 gas_limit=str(o['gas_limit']), storage_limit=str(o['storage_limit']),
-                                amount=str(o['amount']), destination=OTHER) for o in ops])
+                                **(dict(amount=str(o['amount']), destination=OTHER) if o['kind'] == 'transaction' else {})) for o in ops])
         if outcome_ok:
             self.applied.append(g)
             return g['hash']
@@ -265,7 +282,7 @@ def make_node(state: SimState, outcome_queue: list):
                     return state.run_operation(json)
                 if p == 'injection/operation':
                     ok = outcome_queue.pop(0)
-                    return state.inject(bytes.fromhex(json), ok)
+                    return state.inject(bytes.fromhex(json), ok, bool((params or {}).get('async')))
             except NodeRejects as e:
                 raise RpcError.from_errors(e.args[0])
             raise AssertionError(f'simulated node: unmodelled POST {path}')
